@@ -1059,7 +1059,10 @@ fn comment_text(kind: usize, id: usize) -> (String, bool) {
         5 => (format!("\n--c{}x", id), true),
         6 => (format!("\n--[[c{}x]]\n", id), false),
         // kind 7: a block comment at the START of the line on which the next token stands
-        _ => (format!("\n--[[c{}x]]", id), false),
+        7 => (format!("\n--[[c{}x]]", id), false),
+        // kind 8: a block comment whose inner lines end in blanks, one of them holding nothing else (the text of a comment is
+        // kept byte for byte: only the line terminators may change)
+        _ => (format!("--[[c{}x \n \t\nd\t\ne ]]", id), false),
     }
 }
 
@@ -2138,6 +2141,105 @@ pub fn f_type(thorough: bool) -> Vec<Case> {
     // multi-line written forms (pipe at line start / line end)
     for body in ["\n\t| ConnectionHandleType\n\t| (CallbackTable & Extra)\n\t| nil", "ConnectionHandleType |\n\tDisconnectedSentinel |\n\t((value: number) -> string)"] {
         v.push(case("F-TYPE", Dial::Luau, format!("type Listener = {}\n", body)));
+    }
+    v
+}
+
+// F-ACCESS (Luau): `read` / `write` access modifiers of array types and table-type fields, with element types that stay on
+// one line, hang, or are tables themselves, in every type position of F-TYPE
+// ------------------------------------------------------------------------------------------------------------
+pub fn f_access() -> Vec<Case> {
+    let mut v = Vec::new();
+    let ctxs: &[(&str, &str)] = &[
+        ("type Listener = ", "\n"),
+        ("export type Listener<T> = ", "\n"),
+        ("local function f(argument: ", ") end\n"),
+        ("local function f(): ", " end\n"),
+        ("type Holder = { field: ", " }\n"),
+        ("type Holder = { [string]: ", " }\n"),
+        ("type Callback = (argument: ", ") -> ()\n"),
+        ("type Callback = () -> ", "\n"),
+        ("local value: ", " = nil\n"),
+        ("local x = y :: ", "\n"),
+        ("type Opt = (", ")?\n"),
+        ("type Union = ConnectionHandleType | ", " | nil\n"),
+    ];
+    let elems = ["number", "ConnectionHandleType | DisconnectedSentinel | FallbackHandlerKind", "{ number }", "{ field: number }", "(value: number) -> string", "Optional?"];
+    for acc in ["read", "write"] {
+        for e in elems {
+            for (pre, post) in ctxs {
+                v.push(case("F-ACCESS", Dial::Luau, format!("{}{{ {} {} }}{}", pre, acc, e, post)));
+                v.push(case("F-ACCESS", Dial::Luau, format!("{}{{ {} field: {} }}{}", pre, acc, e, post)));
+                v.push(case("F-ACCESS", Dial::Luau, format!("{}{{ {} [string]: {}, write other: number }}{}", pre, acc, e, post)));
+            }
+        }
+        // written over several lines
+        v.push(case("F-ACCESS", Dial::Luau, format!("type Listener = {{\n\t{} number\n}}\n", acc)));
+        v.push(case("F-ACCESS", Dial::Luau, format!("type Listener = {{ {}\n\tnumber }}\n", acc)));
+        v.push(case("F-ACCESS", Dial::Luau, format!("type Listener = {{\n\t{} field: number,\n\t{} other: string,\n}}\n", acc, acc)));
+    }
+    v
+}
+
+// F-BLOCKWS bases, F-DECL, F-GUARDCALL, F-ARGBLANK: small families added after the tenth round of seeded changes
+// ------------------------------------------------------------------------------------------------------------
+/// plain statements in whose gaps a block comment with inner trailing blanks (kind 8) is placed
+pub fn f_blockws() -> Vec<Case> {
+    let bases = ["local x = 1\n", "f(a, b)\n", "return a, b\n", "do\n\tf()\nend\n", "local t = { 1, b }\n", "if a then\n\tf()\nend\n", "x.y = z + 1\n"];
+    let mut v = vec![];
+    for b in bases {
+        v.extend(trivia_variants(&case("F-BLOCKWS", Dial::Core, b), &[8], "F-BLOCKWS"));
+    }
+    v
+}
+
+/// `local` declarations WITHOUT an assignment: 1..3 names, every subset of them annotated (a Luau type / a Lua 5.4 attribute),
+/// alone, followed by another statement, and as the last line of a file without a line terminator
+pub fn f_decl() -> Vec<Case> {
+    let mut v = vec![];
+    let names = ["count", "name", "rest"];
+    for (dial, ann) in [(Dial::Luau, [": number", ": string?", ": { number }"]), (Dial::L54, [" <const>", " <close>", " <const>"])] {
+        for n in 1..=3usize {
+            for mask in 0..(1u32 << n) {
+                let list: Vec<String> = (0..n).map(|i| if mask & (1 << i) != 0 { format!("{}{}", names[i], ann[i]) } else { names[i].to_string() }).collect();
+                let decl = format!("local {}", list.join(", "));
+                v.push(case("F-DECL", dial, format!("{}\n", decl)));
+                v.push(case("F-DECL", dial, decl.clone()));
+                v.push(case("F-DECL", dial, format!("{}\nreturn count\n", decl)));
+                v.push(case("F-DECL", dial, format!("do\n\t{}\n\tf()\nend\n", decl)));
+            }
+        }
+    }
+    v
+}
+
+/// guards whose returned / called expression is a call written WITHOUT parentheses around a table or string (the first pass
+/// adds the parentheses), the argument holding a function, a table or nothing special
+pub fn f_guardcall() -> Vec<Case> {
+    let mut v = vec![];
+    let args = ["{ function() end }", "{ function() return 1 end }", "{ 1, 2 }", "{}", "\"text\"", "{ key = function(a) return a end }", "{ { function() end } }"];
+    for a in args {
+        for callee in ["wrap", "obj.wrap", "obj:wrap"] {
+            for stmt in ["return", "call"] {
+                let body = if stmt == "return" { format!("return {}{}", callee, a) } else { format!("{}{}", callee, a) };
+                v.push(case("F-GUARDCALL", Dial::Core, format!("if k then {} end\n", body)));
+                v.push(case("F-GUARDCALL", Dial::Core, format!("local function h(k)\n\tif k == \"noop\" then {} end\n\treturn lookup[k]\nend\n", body)));
+                v.push(case("F-GUARDCALL", Dial::Core, format!("local f = function() {} end\n", body)));
+            }
+        }
+    }
+    v
+}
+
+/// calls (and method calls) with an EMPTY line in front of an argument, the first argument on the line of the `(` or not
+pub fn f_argblank() -> Vec<Case> {
+    let mut v = vec![];
+    for callee in ["schedule", "obj.schedule", "obj:schedule", "a.b:c"] {
+        for args in ["interval,\n\n\tcallback, options", "interval, callback,\n\n\toptions", "interval,\n\n\tcallback,\n\n\toptions", "\n\tinterval,\n\n\tcallback", "\n\n\tinterval, callback", "interval,\n\n\tfunction() end", "interval,\n\n\t{ 1, 2 }", "{ 1 },\n\n\tcallback"] {
+            v.push(case("F-ARGBLANK", Dial::Core, format!("{}({})\n", callee, args)));
+            v.push(case("F-ARGBLANK", Dial::Core, format!("local r = {}({})\n", callee, args)));
+            v.push(case("F-ARGBLANK", Dial::Core, format!("do\n\t{}({})\nend\n", callee, args)));
+        }
     }
     v
 }
